@@ -32,6 +32,15 @@ pub struct Bounds {
 }
 
 pub fn bounds(tier: Tier) -> Bounds {
+    let mut b = bounds_of(tier);
+    // experiment knob (not used by the registered commands)
+    if let Some(c) = std::env::var("VERIF_STATE_CAP").ok().and_then(|s| s.parse().ok()) {
+        b.state_cap = c;
+    }
+    b
+}
+
+fn bounds_of(tier: Tier) -> Bounds {
     match tier {
         Tier::Quick => Bounds { faults: 2, rich: false, small_nodes: 3, max_leaves: 1 << 10, d: 1, state_cap: 6_000 },
         Tier::Thorough => {
